@@ -740,7 +740,55 @@ ASSUMPTIONS = [
     'every format holds a +0.0 (the class convention pos_bound >= 0 >= neg_bound)',
 ]
 
+def t8_range_elements(ctx: Ctx):
+    """`range(start, stop, step)` with known arguments: the format stated for the loop variable holds every integer
+    the range produces, whichever way it runs and wherever it starts.  `_range_elt_format` is evaluated, from its source,
+    with the exact-set threshold at 2 so that the bounded arm answers for short ranges too, over every (start, stop,
+    step) with start, stop in [-6, 6] and step in {-3..-1, 1..3}."""
+    from fractions import Fraction
+    fn = ctx.fn(ANA, '_FormatInferInstance._range_elt_format')
+
+    def fmt(*a):
+        if len(a) != 3:
+            raise ShapeError(f'AbstractFormat{a}')
+        o = Obj('AbstractFormat', prec=a[0], exp=a[1], bound=a[2])
+        o.fields['format'] = lambda: o
+        return o
+    n = 0
+    bad = None
+    for start, stop, step in itertools.product(range(-6, 7), range(-6, 7), (-3, -2, -1, 1, 2, 3)):
+        it = Interp({}, {}, globals_={'_INTEGER_FORMAT': 'INT'}, self_obj=Obj('self', _range_set_threshold=2),
+                    overrides={'RealFloat.from_int': lambda v: v, 'AbstractFormat': fmt, 'SetFormat': lambda vs: Obj('SetFormat', values=set(vs)),
+                               'frozenset': frozenset, 'Fraction': Fraction})
+        got = it.call_function(fn, [start, stop, step], bound_self=True)
+        vals = list(range(start, stop, step))
+        n += 1
+        if bad is not None or got == 'INT':
+            continue
+        if isinstance(got, Obj) and got.kind == 'SetFormat':
+            if got.fields['values'] != set(vals):
+                bad = f'range({start}, {stop}, {step}) is given the set {sorted(got.fields["values"])}'
+        elif isinstance(got, Obj) and got.kind == 'AbstractFormat':
+            b = got.fields['bound']
+            if got.fields['exp'] != 0 or got.fields['prec'] != float('inf') or any(abs(v) > b for v in vals):
+                bad = f'range({start}, {stop}, {step}) produces {vals} and is given integers of magnitude at most {b}'
+        else:
+            bad = f'range({start}, {stop}, {step}) is given {got!r}'
+    ctx.check(bad is None, ANA, fn, '_FormatInferInstance._range_elt_format', f'the element format of a known range holds every element ({n} ranges)',
+              (bad or '') + ': `for i in range(-300, 20): k = i * 3` stores k in an int8_t and wraps for i <= -43')
+    if n < 1000:
+        raise ShapeError(f'only {n} ranges evaluated')
+
+
+def g1_size_facts(ctx: Ctx):
+    # format inference pins `len(xs)` to {n} and walks `for x in xs` exactly n times on the word of the array-size
+    # analysis; where that analysis may constrain a length globally is decided in c13
+    c13.g2_size_facts_unconditional(ctx)
+
+
 RULES = [
+    Rule('C14.G1', 'a list length format inference relies on is constrained only where every execution passes (= C13.G2, array sizes)', g1_size_facts, 15, 'G'),
+    Rule('C14.T8', 'the element format of range(start, stop, step) holds every element, whichever way the range runs', t8_range_elements, 1, 'T'),
     Rule('C14.T1', 'every AbstractFormat operator covers the exact results of its members: finite range, infinities / NaN, sign of zero', t1_operator_soundness, 24, 'T'),
     Rule('C14.T2', 'containment agrees with membership; round_is_identity is containment in the target format', t2_containment, 10, 'T'),
     Rule('C14.D1', 'inference phis join both operands; loops iterate until stable with widening only past the limit; exact walk for known trip counts', d1_phi_updates, 21, 'D'),
@@ -755,6 +803,14 @@ RULES = [
 from ..selftest import Mutant  # noqa: E402
 
 MUTANTS = [
+    Mutant('comprehension-element-unconditional-for-known-lengths', 'fpy2/analysis/array_size.py', "        with self._branch():\n            elt_ty = self._visit_expr(e.elt, ctx)\n\n        # One iterable",
+           "        if all(isinstance(ty.size, int) for ty in iter_tys):\n            elt_ty = self._visit_expr(e.elt, ctx)\n        else:\n            with self._branch():\n                elt_ty = self._visit_expr(e.elt, ctx)\n\n        # One iterable", 'C14.G1',
+           'seeded change C14d: a known length may be 0, and then the element never runs'),
+    Mutant('range-bound-from-the-positive-end', ANA, "        b = RealFloat.from_int(max(abs(start), abs(last)))", "        b = RealFloat.from_int(abs(max(start, last)))", 'C14.T8',
+           'seeded change C11d: range(-300, 20) is given |i| <= 19'),
+    Mutant('range-bound-from-the-start', ANA, "        b = RealFloat.from_int(max(abs(start), abs(last)))", "        b = RealFloat.from_int(abs(start))", 'C14.T8'),
+    Mutant('range-bound-from-stop', ANA, "        b = RealFloat.from_int(max(abs(start), abs(last)))", "        b = RealFloat.from_int(max(abs(start), abs(stop)))", 'C14.T8',
+           'the stop is never attained but bounds every element', expect='silent'),
     # T7
     Mutant('unknown-with-block-takes-the-pinned-context', ANA, "        if isinstance(scope.site, FuncDef):\n            return self._outer_ctx\n        return None", "        return self._outer_ctx", 'C14.T7',
            'finding F60 before its repair'),
